@@ -263,13 +263,16 @@ enum Work { A(usize), B(BCase), C { cfg_idx: usize, masks: Vec<u8>, vals: Vec<i3
 
 pub fn run(tier: &str) -> Report {
     let mut rep = Report::new("C14", tier, "model_checking");
-    let thorough = tier == "thorough";
+    // quick explores what used to be the thorough space (it takes ~20 s); thorough adds more default-on sets for
+    // (b), independent hole patterns for two switches in one statement, and longer runs / more flag sets for (c)
+    let extra = tier == "thorough";
+    let thorough = true;
     let table = Table::new(&TableCfg::FULL);
     let cfgs = flag_cfgs(thorough);
     let mut work: Vec<Work> = (0..cfgs.len()).map(Work::A).collect();
     let n_a = work.len();
     // (b): configurations = ENHL+digits scheme with a few aux sets
-    let b_cfg_idx: Vec<usize> = cfgs.iter().enumerate().filter(|(_, c)| c.scheme == "ENHL+digits" && [0x00u8, 0x10, 0xF0, 0x30, 0x01, 0x82].contains(&c.default_on)).map(|(i, _)| i).collect();
+    let b_cfg_idx: Vec<usize> = cfgs.iter().enumerate().filter(|(_, c)| c.scheme == "ENHL+digits" && (if extra { vec![0x00u8, 0x10, 0xF0, 0x30, 0x01, 0x82, 0x20, 0x40, 0x80, 0x03, 0x0F, 0x50, 0xA0, 0xFF, 0x11, 0xE1] } else { vec![0x00u8, 0x10, 0xF0, 0x30, 0x01, 0x82] }).contains(&c.default_on)).map(|(i, _)| i).collect();
     let labels: [&'static str; 12] = ["*", "E", "EN", "ENH", "ENHL", "L", "NH", "HL", "*-4", "EN-7", "0123", "*-E"];
     for &ci in &b_cfg_idx {
         for n in 2..=8usize {
@@ -288,6 +291,16 @@ pub fn run(tier: &str) -> Report {
                 let sw2: Vec<Option<i32>> = (0..n).map(|i| if i == 0 || (holes >> (n - 1 - i)) & 1 == 0 { Some(100 + i as i32) } else { None }).collect();
                 let body = format!("{{ {{\"*\"}}: mSS({}, {}); }}", txt(&sw), txt(&sw2));
                 work.push(Work::B(BCase { body, n, cases: vec![sw.clone(), sw2], label: "*", cfg_idx: ci, mismatched: false }));
+                // thorough: the second switch gets every hole pattern independently (n <= 5), under a restricting label
+                if extra && n <= 5 {
+                    for holes2 in 0..(1u32 << (n - 1)) {
+                        let sw3: Vec<Option<i32>> = (0..n).map(|i| if i > 0 && (holes2 >> (i - 1)) & 1 == 1 { None } else { Some(200 + i as i32) }).collect();
+                        for lab in ["ENH", "*-4"] {
+                            let body = format!("{{ {{\"{lab}\"}}: mSS({}, {}); }}", txt(&sw), txt(&sw3));
+                            work.push(Work::B(BCase { body, n, cases: vec![sw.clone(), sw3.clone()], label: lab, cfg_idx: ci, mismatched: false }));
+                        }
+                    }
+                }
             }
             // mismatched lengths must be an error
             let body = format!("{{ mSS(({}), (1:2:3:4:5:6:7:8:9)); }}", (0..n).map(|i| i.to_string()).collect::<Vec<_>>().join(":"));
@@ -297,8 +310,8 @@ pub fn run(tier: &str) -> Report {
     let n_b = work.len() - n_a;
     // (c): runs of 2..4 instructions with masks from a family set
     let mask_set: Vec<u8> = vec![0x01, 0x02, 0x04, 0x08, 0x03, 0x06, 0x0C, 0x07, 0x0E, 0x0F, 0x05, 0x09, 0xF1, 0xF2, 0xFC, 0xF3, 0xFF, 0x10, 0x00, 0xF0];
-    let c_cfgs: Vec<usize> = cfgs.iter().enumerate().filter(|(_, c)| c.scheme == "ENHL+digits" && [0x00u8, 0xF0].contains(&c.default_on)).map(|(i, _)| i).collect();
-    let max_run = if thorough { 4 } else { 3 };
+    let c_cfgs: Vec<usize> = cfgs.iter().enumerate().filter(|(_, c)| c.scheme == "ENHL+digits" && (if extra { vec![0x00u8, 0xF0, 0x10, 0x30] } else { vec![0x00u8, 0xF0] }).contains(&c.default_on)).map(|(i, _)| i).collect();
+    let max_run = if extra { 5 } else { 4 };
     // for the longest runs only the masks with all aux bits on (the shape real files have)
     let small_set: Vec<u8> = vec![0xF1, 0xF2, 0xF4, 0xF8, 0xF3, 0xF6, 0xFC, 0xF7, 0xFE, 0xFF, 0xF5, 0x01];
     for &ci in &c_cfgs {
@@ -336,7 +349,7 @@ pub fn run(tier: &str) -> Report {
         for f in failures { if seen_sigs.insert(f.signature.clone()) || rep.failures.len() < 200 { rep.failures.push(f); } }
     }
     rep.exhaustive = true;
-    rep.bound_completed = format!("(a) all 256 masks x {} flag configurations ({} schemes x default-on subsets{}); (b) {} switch statements: lengths 2-8, every hole pattern{}, 12 labels, 6 default-on sets, 1-2 switches per statement, mismatched lengths; (c) {} runs of 2..{} instructions over {} masks x same/different values x recognition on/off", n_a, 8, if thorough { ": all 256 for every scheme" } else { ": all 256 for the ENHL scheme, 12 elsewhere" }, n_b, if thorough { "" } else { " (quick: a subset for n>5)" }, n_c, max_run, mask_set.len());
+    rep.bound_completed = format!("(a) all 256 masks x {} flag configurations ({} schemes x default-on subsets{}); (b) {} switch statements: lengths 2-8, every hole pattern{}, 12 labels, {} default-on sets, 1-2 switches per statement{}, mismatched lengths; (c) {} runs of 2..{} instructions over {} masks x same/different values x recognition on/off", n_a, 8, if thorough { ": all 256 for every scheme" } else { ": all 256 for the ENHL scheme, 12 elsewhere" }, n_b, if thorough { "" } else { " (quick: a subset for n>5)" }, b_cfg_idx.len(), if extra { " (second switch with every independent hole pattern for n<=5 under 2 restricting labels)" } else { "" }, n_c, max_run, mask_set.len());
     rep.rule = "full products as listed; non-trivial = the flag set has a default-on or renamed bit (a), the switch has a hole or the label masks out a case (b), every run (c)".into();
     rep.assumptions = vec!["M8 (harness model of the label grammar: defaults, '-'/'+', '*', names) and of per-difficulty case selection".into(), "flag definitions that give one name to two bits can only be satisfied by rejection".into()];
     rep.explanation = "(a) hand-built instructions with every mask are raised to text, each printed label is parsed by M8 and the text is recompiled; (b) switch statements are lowered and, for each difficulty, exactly one emitted copy must apply with that difficulty's values and the label's aux bits; (c) hand-built instruction runs are raised with recognition on/off and recompiled to identical instructions".into();
